@@ -185,6 +185,11 @@ def run(ctx):
     mcfg = fw.write_cfg(ctx.path("MC_FmtLayout.cfg"), invariants=["Conforms", "OneBranch"],
                         constants={"MaxDigits": ctx.pick(6, 8), "MaxWidth": ctx.pick(9, 14)})
     ctx.mc("mc-fmtlayout", "C07", "FmtLayoutAlg.tla", mcfg, workers=4, required_actions=MC_ACTIONS)
+    # digit extraction / packing for the power-of-two radices at word level (digit sizes that do and do not divide the word)
+    for nm, w, lrs, mw, ms in [("w4", 4, "{1, 2, 3}", 4, 5)] + ([] if ctx.quick else [("w5", 5, "{1, 2, 3, 4}", 3, 5), ("w6", 6, "{4, 5}", 3, 4)]):
+        rcfg = fw.write_cfg(ctx.path("MC_RadixPow2Alg_%s.cfg" % nm), invariants=["PrintOK", "RoundTripOK", "ParseOK"],
+                            constants={"W": w, "LogRadices": lrs, "MaxWords": mw, "MaxStr": ms})
+        ctx.mc("mc-radixpow2-" + nm, "C07", "RadixPow2Alg.tla", rcfg, workers=4)
     # spec -> impl: the partition enumerated by TLC
     radices = ctx.pick([2, 3, 7, 8, 10, 16, 29, 36], list(range(2, 37)))
     ctx.scope.update({"radices": radices, "thorough": not ctx.quick, "exact_digit_limit": 2000,
